@@ -155,6 +155,11 @@ pub fn tagged_rows(seed: u64, nrand: usize) -> Vec<String> {
 // ------------------------------------------------------------------------------------------
 // public API on real objects of several alignments (C11)
 
+thread_local! {
+    /// result of the exclusive-accessor comparison of the row being built (keeps `row`'s signature)
+    static MUT_OK: std::cell::Cell<bool> = std::cell::Cell::new(true);
+}
+
 macro_rules! api_node {
     ($name:ident, $align:literal) => {
         #[repr(align($align))]
@@ -186,12 +191,19 @@ macro_rules! api_node {
                         // Snapshot
                         let t = s.with_tag(tg as usize);
                         let (_, _, ts) = verif::split_word::<$name>(verif::snapshot_word(&t));
+                        // the exclusive accessors must reach the same address as the shared ones (only the address is compared)
+                        let shared = t.as_ref().map(|x| x as *const $name as usize).unwrap_or(0);
+                        let mut_ok = unsafe { t.deref_mut() as *mut $name as usize == shared && t.as_mut().map(|x| x as *mut $name as usize).unwrap_or(0) == shared };
+                        MUT_OK.with(|m| m.set(mut_ok));
                         Self::row(out, "sn", k, tg, t.tag(), t.as_ref().map(|x| x.id == id).unwrap_or(false), t.is_null(),
                             Snapshot::<$name>::null().with_tag(tg as usize).is_null(), s0.with_tag(tg as usize).ptr_eq(t), s.ptr_eq(t), s.tag(),
                             format!("{:p}", t) == format!("{:p}", s0.with_tag(tg as usize)) && format!("{:p}", s) == base_fmt, ts, ts_expected);
                         // Rc carrying the timestamp of the link it was swapped out of
-                        let r = cell.swap(rc.clone(), SeqCst).with_tag(tg as usize);
+                        let mut r = cell.swap(rc.clone(), SeqCst).with_tag(tg as usize);
                         let (_, _, ts) = verif::split_word::<$name>(verif::rc_word(&r));
+                        let shared = r.as_ref().map(|x| x as *const $name as usize).unwrap_or(0);
+                        let mut_ok = unsafe { r.deref_mut() as *mut $name as usize == shared && r.as_mut().map(|x| x as *mut $name as usize).unwrap_or(0) == shared };
+                        MUT_OK.with(|m| m.set(mut_ok));
                         Self::row(out, "rc", k, tg, r.tag(), r.as_ref().map(|x| x.id == id).unwrap_or(false), r.is_null(),
                             Rc::<$name>::null().with_tag(tg as usize).is_null(), rc.clone().with_tag(tg as usize).ptr_eq(&r), rc.ptr_eq(&r), rc.tag(),
                             format!("{:p}", r) == format!("{:p}", rc.clone().with_tag(tg as usize)), ts, ts_expected);
@@ -200,6 +212,7 @@ macro_rules! api_node {
                         let w0 = rc.downgrade().with_tag(tg as usize);
                         let (_, _, ts) = verif::split_word::<$name>(verif::weak_word(&w));
                         let up = w.upgrade();
+                        MUT_OK.with(|m| m.set(true));
                         Self::row(out, "wk", k, tg, w.tag(), up.as_ref().and_then(|x| x.as_ref()).map(|x| x.id == id).unwrap_or(false), w.is_null(),
                             circ::Weak::<$name>::null().with_tag(tg as usize).is_null(), w0.ptr_eq(&w), rc.downgrade().ptr_eq(&w), 0,
                             format!("{:p}", w) == format!("{:p}", w0), ts, ts_expected);
@@ -212,8 +225,8 @@ macro_rules! api_node {
             #[allow(clippy::too_many_arguments)]
             fn row(out: &mut Vec<String>, h: &str, k: u32, g: u64, tag: usize, same: bool, null: bool, nullnull: bool, pe_ts: bool, pe_tag: bool, tag0: usize, fmt: bool, ts: usize, tse: usize) {
                 out.push(format!(
-                    "{{\"fn\":\"api\",\"h\":\"{}\",\"k\":{},\"g\":{},\"tag\":{},\"same_obj\":{},\"null\":{},\"nullnull\":{},\"ptr_eq_ts\":{},\"ptr_eq_tag\":{},\"tag0\":{},\"fmt_same\":{},\"ts\":{},\"ts_expected\":{}}}",
-                    h, k, limbs(g), tag, same as u8, null as u8, nullnull as u8, pe_ts as u8, pe_tag as u8, tag0, fmt as u8, ts, tse
+                    "{{\"fn\":\"api\",\"h\":\"{}\",\"k\":{},\"g\":{},\"tag\":{},\"same_mut\":{},\"same_obj\":{},\"null\":{},\"nullnull\":{},\"ptr_eq_ts\":{},\"ptr_eq_tag\":{},\"tag0\":{},\"fmt_same\":{},\"ts\":{},\"ts_expected\":{}}}",
+                    h, k, limbs(g), tag, MUT_OK.with(|m| m.get()) as u8, same as u8, null as u8, nullnull as u8, pe_ts as u8, pe_tag as u8, tag0, fmt as u8, ts, tse
                 ));
             }
         }
